@@ -167,6 +167,10 @@ func c14All(t failer, col *collector, c c14Case, stride int) {
 					continue
 				}
 				cc := c
+				mode := mode
+				if mode == 1 && k%2 == 0 {
+					mode = 3 // the error arrives with the last bytes, once; the next Read carries on
+				}
 				cc.Reader = &c14Reader{At: k, Mode: mode, Chunk: []int{0, 1, 7}[(k+mode)%3], Kind: (k + 3*mode) % 6, IO: []int{0, 1, 5, 0, 2}[(k/2)%5]}
 				pos := "reader@inside"
 				if k == 0 {
@@ -196,7 +200,7 @@ func c14All(t failer, col *collector, c c14Case, stride int) {
 			}
 			for v := 0; v < 3; v++ {
 				cc := c
-				cc.Writer = &c14Writer{At: j, Kind: (j + v) % 6, IO: c14IOKind(j, v, w)}
+				cc.Writer = &c14Writer{At: j, Kind: (j + v) % 9, IO: c14IOKind(j, v, w)} // kinds 6..8: bare io.EOF, io.ErrUnexpectedEOF, io.ErrShortWrite
 				switch v {
 				case 1:
 					cc.Writer.Short = 1
